@@ -3,8 +3,9 @@
 For every design of a connection corpus and every variant (permuted statements, swapped sides): the variant must
 elaborate (the corpus is legal by construction), and after sim_eval_combinational() from a symbolic state both sides of
 EVERY connect statement carry the same value and every output equals variant 0's, for all inputs (z3).
-That the reported net partition / writer equal the connected components is one concrete fact per program and is not
-claimed (DESIGN 7 C08).
+The REPORTED nets and writers (get_all_value_nets) are compared too: equal for every variant, the partition equal to
+the connected components computed from the statement texts alone, the writers equal to a hand-written list.  Those
+three clauses have no input to quantify over; they are decided by direct comparison per variant.
 """
 import sys
 import z3
@@ -47,6 +48,56 @@ for sig in sorted(ref._dsl.all_signals, key=repr):
 '''
 
 
+def canon_nets(top):
+  """reported value nets as a canonical, identity-free structure: sorted [(writer name, sorted member names)]"""
+  from pymtl3.dsl import Const
+  nm = lambda x: f"CONST:{int(x._dsl.const)}" if isinstance(x, Const) else repr(x)
+  return sorted((nm(w), sorted(nm(x) for x in sigs)) for w, sigs in top.get_all_value_nets())
+
+
+def oracle_partition(name, stmts):
+  """connected components of the connection graph, from the statement list alone (union-find over the texts)"""
+  from corpus import conn_designs as CD
+  par = {}
+  def find(x):
+    par.setdefault(x, x)
+    while par[x] != x:
+      par[x] = par[par[x]]; x = par[x]
+    return x
+  k = 0
+  for a, b in list(stmts) + list(CD.EXTRA_EDGES.get(name, [])):
+    if a.lstrip('-').isdigit(): a = f"CONST:{int(a)}#{k}"; k += 1     # every literal is its own Const object
+    if b.lstrip('-').isdigit(): b = f"CONST:{int(b)}#{k}"; k += 1
+    par[find(a)] = find(b)
+  comps = {}
+  for x in par: comps.setdefault(find(x), set()).add(x.split('#')[0])
+  return sorted(sorted(c) for c in comps.values())
+
+
+REPLAY_NETS = '''
+sys.path.insert(0, '/verif')
+import warnings; warnings.filterwarnings('ignore')
+from corpus import conn_designs as CD
+from checks.c08 import canon_nets, oracle_partition
+name, vi = %(name)r, %(vi)d
+tops = []
+for v in (0, vi):
+  t = CD.get(name, v)(); t.elaborate(); tops.append(t)
+n0, n1 = canon_nets(tops[0]), canon_nets(tops[1])
+if n0 != n1:
+  d = [x for x in n1 if x not in n0]
+  reproduced(f"{name}: variant {vi} {CD.statements(name, vi)} reports nets/writers {d} that variant 0 does not report ({[x for x in n0 if x not in n1]})")
+skip = lambda ms: all(m.endswith('.clk') or m.endswith('.reset') for m in ms)
+got = sorted(ms for w, ms in n1 if not skip(ms))
+want = oracle_partition(name, CD.statements(name, vi))
+if got != want:
+  reproduced(f"{name} variant {vi}: reported nets {got} are not the connected components of the connection graph {want}")
+ws = sorted(w for w, ms in n1 if not skip(ms))
+if ws != sorted(CD.WRITERS[name]) or any(w not in ms for w, ms in n1):
+  reproduced(f"{name} variant {vi}: reported writers {ws}, expected {CD.WRITERS[name]}")
+'''
+
+
 def item(it):
   cover.start()
   import warnings; warnings.filterwarnings('ignore')
@@ -56,6 +107,7 @@ def item(it):
   res = Result(f"conn/{name}")
   nv = CD.nvariants(name)
   ref_out = None
+  ref_nets = None
   for vi in range(nv):
     stmts = CD.statements(name, vi)
     res['obligations'] += 1
@@ -67,6 +119,22 @@ def item(it):
                                     replay=REPLAY % dict(name=name, vi=vi, state={}, pair=None, ref=0)))
       continue
     top = sim.top
+    # -- the REPORTED nets and writers: equal for every variant, and the partition equals the connected components
+    res['obligations'] += 2
+    nets = canon_nets(top)
+    if ref_nets is None: ref_nets = nets
+    skip = lambda ms: all(m.endswith('.clk') or m.endswith('.reset') for m in ms)
+    if nets != ref_nets:
+      res['violations'].append(dict(key=f"connect:{name}:nets depend on the order", what=f"{res['name']} variant {vi} {stmts}: reported nets/writers differ from variant 0: {[x for x in nets if x not in ref_nets]}",
+                                    replay=REPLAY_NETS % dict(name=name, vi=vi)))
+    elif sorted(ms for w, ms in nets if not skip(ms)) != oracle_partition(name, stmts):
+      res['violations'].append(dict(key=f"connect:{name}:nets are not the connected components", what=f"{res['name']} variant {vi}: reported nets {[ms for w, ms in nets if not skip(ms)]} != components {oracle_partition(name, stmts)}",
+                                    replay=REPLAY_NETS % dict(name=name, vi=vi)))
+    elif sorted(w for w, ms in nets if not skip(ms)) != sorted(CD.WRITERS[name]) or any(w not in ms for w, ms in nets):
+      res['violations'].append(dict(key=f"connect:{name}:wrong writer", what=f"{res['name']} variant {vi}: reported writers {[w for w, ms in nets if not skip(ms)]} != {CD.WRITERS[name]}",
+                                    replay=REPLAY_NETS % dict(name=name, vi=vi)))
+    else:
+      res['discharged'] += 2
     outs = sorted(repr(x) for x in top._dsl.all_signals if isinstance(x, OutPort) and x.is_top_level_signal() and x.get_host_component() is top)
     probe = {}
 
@@ -127,10 +195,9 @@ def main():
   for it, r in pmap(item, items, item_timeout=900):
     chk.absorb(it, r)
   chk.bounds = dict(designs=CD.names(), variants='all permutations x side flips up to 24 per design (rule-generated subset above)', cycles='one combinational evaluation from an arbitrary state')
-  chk.outside = ['equality of the REPORTED net partition/writers with the connected components (one concrete fact per program: no inner quantifier)',
-                 'connection multisets outside the corpus', 'method-port nets']
+  chk.outside = ['connection multisets outside the corpus', 'method-port nets']
   chk.assumptions = ['corpus designs are legal by construction: an elaboration error on any variant is a violation']
-  chk.finish(rule="per design and variant: the variant elaborates; per connect statement one obligation 'both sides equal after evaluation for all inputs'; per variant one obligation 'outputs equal variant 0'")
+  chk.finish(rule="per design and variant: the variant elaborates; per connect statement one obligation 'both sides equal after evaluation for all inputs'; per variant one obligation 'outputs equal variant 0'; per variant two structural obligations: reported nets/writers equal variant 0's, partition = connected components of the statement graph and writers = hand-written list (direct comparison, no solver)")
 
 
 if __name__ == '__main__':
